@@ -173,6 +173,29 @@ def batch_exports(which, max_n, lo, hi, seed, depth, per_model):
     return res
 
 
+def batch_dups(which):
+    """constraints that are repeated literally or differ by the letter case of a name only: each one is part of the
+    model's meaning and must reach the export (Constraint.__eq__ folds case, a set / dict of constraints loses them)."""
+    from . import rt
+    res = {'instances': 0, 'nontrivial': 0, 'violations': [], 'native_runs': 0, 'programs': 0, 'disagreements_checked': 0}
+    extra = [[('REQUIRES', 'Gui', 'Core'), ('EXCLUDES', 'GUI', 'Core')], [('IMPLIES', 'Core', 'Gui'), ('IMPLIES', 'core', 'GUI')]]
+    for trees in rt.DUP_CTC_SETS + extra:
+        names = list(rt.DUP_NAMES) if not any('core' in R.tree_names(t) for t in trees) else ['Root', 'Gui', 'GUI', 'Core', 'core']
+        shape = rt.DUP_SHAPE if len(names) == 4 else (((),), ((),), ((),), ((),))
+        for cards in ([(0, 1)] * (len(names) - 1), [(1, 1)] + [(0, 1)] * (len(names) - 2)):
+            args = [which, shape, cards, trees, names]
+            res['instances'] += 1
+            res['programs'] += 1
+            res['nontrivial'] += 1
+            res['native_runs'] += 1
+            bad = replay_export(*args)
+            if bad:
+                res['disagreements_checked'] += 1
+                res['violations'].append({'label': which + '-export', 'detail': bad[0], 'replay_func': 'replay_export', 'replay_args': args})
+    res['sample'] = {'writer': which, 'names': rt.DUP_NAMES, 'constraints': rt.DUP_CTC_SETS[0]}
+    return res
+
+
 def batch_all_ops(which, seed):
     """every single logical operator at depth 1 and every depth-2 tree over two names, on one model."""
     res = {'instances': 0, 'nontrivial': 0, 'violations': [], 'native_runs': 0, 'programs': 0, 'disagreements_checked': 0}
@@ -203,6 +226,7 @@ def batches(tier, seed):
     for which in ('splot', 'pl'):
         b += [('batch_exports', [which, N, lo, lo + step, seed + lo, 1, 1 if tier == 'quick' else 3]) for lo in range(0, total, step)]
         b.append(('batch_all_ops', [which, seed]))
+        b.append(('batch_dups', [which]))
     return b
 
 
